@@ -17,6 +17,8 @@ void OnEvent(int fiber, int kind, const void* obj, int order);
 void EnterPrim();
 void LeavePrim();
 void OnAlloc(const void* p, std::size_t n);
+// memory handed out by an allocator other than operator new (exception objects): forget what was there before
+void OnRawAlloc(const void* p, std::size_t n);
 void OnFree(const void* p);
 unsigned long long Accesses();
 unsigned long long SyncOps();
